@@ -516,6 +516,14 @@ def r18_5(ctx: Ctx):
     return out
 
 
+def r18_10(ctx: Ctx):
+    """R18.10 a sleeping deme's history changes through nobody: only the deme's own methods write `_history`, and those are
+    reachable only through the skippable step (R18.5)."""
+    from .common import foreign_history_writes
+
+    return foreign_history_writes(ctx, "R18.10", "the history of a deme that sleeps (or has stopped) changes although it ran no metaepoch")
+
+
 def r18_6(ctx: Ctx):
     """R18.6 the flag is read only by the stepping loop and the flag round: sleeping demes stay candidates for sprouting (which is what wakes them)."""
     obs = []
@@ -680,4 +688,5 @@ RULES = [
     ("R18.7", r18_7, 1),
     ("R18.8", r18_8, 1),
     ("R18.9", r18_9, 1),
+    ("R18.10", r18_10, 1),
 ]
